@@ -1,5 +1,5 @@
 """Claims registered in MANIFEST.json (edit here, then run tools/gen_manifest.py)."""
-HOOK_COMMITS = ["d84e864"]
+HOOK_COMMITS = ["d84e864", "ee294ac", "ebadae1", "b32c974"]
 
 CLAIMS = {
     "C18": {
